@@ -7,15 +7,15 @@ props = [json.loads(l) for l in open(os.path.join(V, "properties.jsonl"))]
 CHECKS = {
  "C01": dict(engine="registry", technique="TLA+ spec (Registry.tla) model-checked with TLC; every transition of the state graph replayed on the real library and the intern table compared (spec->code conformance)",
    category="model_checking", design_ref="§5 C01",
-   text="All histories of public unit operations up to a bounded depth over a small universe chosen to contain the dangerous shapes are enumerated by TLC from the Registry specification; every transition is executed on the real library in a process whose state is the spec's from-state; the result's dimension, the dimension stored in every Unit._known entry and its permanence are compared after each step. Deeper random behaviours come from TLC's simulator. Mechanism variants of the spec (as shipped) must violate the invariant in TLC (non-vacuity).",
+   text="All histories of public unit operations up to a bounded depth over a small universe chosen to contain the dangerous shapes are enumerated by TLC from the Registry specification; every transition is executed on the real library in a process whose state is the spec's from-state; the result's dimension, the dimension stored in every Unit._known entry and its permanence are compared after each step. Deeper random behaviours come from TLC's simulator. Mechanism variants of the spec (as shipped) must violate the invariant in TLC (non-vacuity). A directed configuration defines a NEW fundamental dimension in the middle of the history (dump, Dimension.define, load, convert).",
    note="Bounded depth/universe (see evidence); alpha (harness/alpha.py) is trusted to read Unit._known, .factors, .dimension; base-10 prefixes only in this model."),
  "C02": dict(engine="registry", technique="TLA+ spec (Registry.tla: free abelian group normal forms + oid injectivity) model-checked with TLC; transitions replayed on the real library comparing normal form and object identity",
    category="model_checking", design_ref="§5 C02",
-   text="The group laws are the definitions of Mul/Div/Pow/Root in the spec; TLC enumerates every expression DAG up to the depth in every evaluation order; for each transition the real result must have the spec's normal form and be the very same object as any earlier result with that normal form; the table must stay duplicate-free and keyed consistently.",
+   text="The group laws are the definitions of Mul/Div/Pow/Root in the spec; TLC enumerates every expression DAG up to the depth in every evaluation order; for each transition the real result must have the spec's normal form and be the very same object as any earlier result with that normal form; the table must stay duplicate-free and keyed consistently. One Dimension object per dimension and every unit reporting that object are table clauses; powers of cross-base prefix products are judged by value (Algebra.tla).",
    note="Bounded depth/universe; cross-base prefix numerics are covered under C11."),
  "C15": dict(engine="registry", technique="TLA+ spec (Registry.tla Dump/Load actions) model-checked with TLC; transitions replayed with pickle/copy/deepcopy/JSON on the real library",
    category="model_checking", design_ref="§5 C15",
-   text="Dump and Load are separate spec actions interleaved with unit algebra; TLC enumerates the interleavings; every Load on the real library must return the identical object and leave the table unchanged.",
+   text="Dump and Load are separate spec actions interleaved with unit algebra; TLC enumerates the interleavings; every Load on the real library must return the identical object and leave the table unchanged. Histories with a Dimension.define between dump and load; a loaded unit must still report the identical dimension and prefix objects; quantities through the string-unit and JSON forms while the unit modules are imported stage by stage.",
    note="Units only in this model for now (dimensions, prefixes, quantities: see DESIGN)."),
 
  "C04": dict(engine="conversions", technique="TLA+ spec (Conversions.tla + MC_ConvShapes): TLC enumerates every equal-dimension unit pair within bounds over a synthetic exactly-consistent system and solves the exact size ratio from the declarations; each pair replayed on the real library; trace validation of recorded public calls against Ledger.tla (TLC)",
@@ -32,7 +32,7 @@ CHECKS = {
    note="Quick samples 6 of the 64 configurations (seeded) ; thorough runs all 64."),
  "C08": dict(engine="conversions", technique="TLA+ spec (Conversions.tla, no memo in the deciding spec; MemoShipped.tla mechanism model for non-vacuity) model-checked with TLC; every history (interleaving of declarations, conversions, comparisons) replayed on the real library; trace validation of recorded public calls against Ledger.tla (TLC)",
    category="model_checking", design_ref="§5 C08",
-   text="All interleavings of up to 3 declarations and 2 queries over 3 (quick) / 4 (thorough) single units are enumerated by TLC; each step is executed on the real library in a process holding exactly the preceding history and its outcome compared with F(decl) from the spec; repeats must be identical; for compound units outcomes in a fresh fork and after thousands of other conversions must agree. MemoShipped must violate C08_Function in TLC.",
+   text="All interleavings of up to 3 declarations and 2 queries over 3 (quick) / 4 (thorough) single units are enumerated by TLC; each step is executed on the real library in a process holding exactly the preceding history and its outcome compared with F(decl) from the spec; repeats must be identical; for compound units outcomes in a fresh fork and after thousands of other conversions must agree. MemoShipped must violate C08_Function in TLC. Re-declarations (a later declaration of a pair replaces the earlier one) and a chain of four units with questions between distant units are part of the enumerated histories.",
    note="Node units: F fully prescribed; compound units: single-valuedness only (cold vs warm)."),
 
  "C03": dict(engine="quantities", technique="TLA+ spec (Quantities.tla) with TLC enumerating operator spelling x operand kind x unit cases and computing the prescribed dimension / Decimal-ness / left unit / rejection; every case replayed on the real library; trace validation of recorded public calls against Ledger.tla (TLC)",
@@ -41,15 +41,15 @@ CHECKS = {
    note="Synthetic dyadic system S2; pool sizes in evidence; conversions the planner refuses are counted, not judged."),
  "C06": dict(engine="quantities", technique="TLA+ spec (Quantities.tla: Phys homomorphism, exact rational arithmetic) with TLC computing the SI value / truth value of every operator case; replayed on the real library and compared through alpha (magnitude x exact size); trace validation of recorded public calls against Ledger.tla (TLC)",
    category="model_checking", design_ref="§5 C06",
-   text="The pool contains the same physical values written in different convertible units and prefixes (decimal and binary); TLC computes Phys(op(a,b)) exactly; the code's result is mapped to its SI value with exact Fractions and compared (exact on dyadic data, 1e-12 otherwise; for + and - relative to the operands).",
+   text="The pool contains the same physical values written in different convertible units and prefixes (decimal and binary); TLC computes Phys(op(a,b)) exactly; the code's result is mapped to its SI value with exact Fractions and compared (exact on dyadic data, 1e-12 otherwise; for + and - relative to the operands). Cross-scale comparisons of the Temp model are judged here as well.",
    note="Synthetic S2; offset scales excluded (C10)."),
  "C11": dict(engine="quantities", technique="TLA+ spec (Quantities.tla: a unit carries decimal and binary prefix exponents; size = prefix factor x unit size checked as a theorem by TLC) with every prefixed case replayed on the real library",
    category="model_checking", design_ref="§5 C11",
-   text="All cases of the Quantities enumeration whose operands carry a prefix: the result's unit must have the normal form p**n * u**n / added prefix exponents (same base, exact) and the SI value must be prefix factor times unit (1e-9 across bases, as the statement allows).",
+   text="All cases of the Quantities enumeration whose operands carry a prefix: the result's unit must have the normal form p**n * u**n / added prefix exponents (same base, exact) and the SI value must be prefix factor times unit (1e-9 across bases, as the statement allows). Prefix identities on offset scales: two spellings of a prefixed source convert alike, a prefixed target is the factor times the target.",
    note="Prefixes exercised: 10^3, 10^-3, 2^10 and their products/powers; registered SI and IEC tables are walked separately in the thorough tier (see evidence)."),
  "C12": dict(engine="quantities", technique="TLA+ spec (Quantities.tla: order by Phys; trichotomy and symmetry checked by TLC on the model) with every ordered pair replayed on the real library: six operators in both argument orders, hash, sorted(); trace validation of recorded public calls against Ledger.tla (TLC)",
    category="model_checking", design_ref="§5 C12",
-   text="TLC prescribes the physical order (-1/0/+1) of every commensurable pair of the pool; the code's ==, !=, <, <=, >, >= in both argument orders must be exactly the truth table of that order; equal pairs must hash equally; random mixed-unit lists must sort into physical order.",
+   text="TLC prescribes the physical order (-1/0/+1) of every commensurable pair of the pool; the code's ==, !=, <, <=, >, >= in both argument orders must be exactly the truth table of that order; equal pairs must hash equally; random mixed-unit lists must sort into physical order. Symmetry pairs include approximately(...) and Levels; node histories with re-declarations; magnitudes at the edges of the numeric types (infinities, 2**200, signed zeros).",
    note="Synthetic S2; Level/Measurement symmetry is covered in the thorough tier section of the evidence when present."),
 
  "C10": dict(engine="temperature", technique="TLA+ spec (Temp.tla: exact affine definitions over rationals; round trip, absolute zero, difference and monotonicity theorems checked by TLC) with TLC enumerating scale pair x prefix x magnitude x kind cases; each replayed on the real library",
@@ -59,31 +59,31 @@ CHECKS = {
 
  "C20": dict(engine="intern", technique="TLA+ spec InternAtomic.tla (linearizable get-or-create) as the deciding spec; call/return histories recorded from the REAL library under a line-granularity scheduler are validated by TLC (trace validation, code->spec); PlusCal mechanism model InternShipped.tla for non-vacuity",
    category="model_checking", design_ref="§5 C20",
-   text="Schedules of two and three threads evaluating the same new dimension/prefix/unit/logarithm/logarithmic unit are explored systematically on the real code (all 1-preemption and sampled/all 2-preemption schedules at line granularity, sampled 3-thread and random schedules); every run's history and final table must be accepted by TLC as a behaviour of InternAtomic for some choice of linearization points. The PlusCal model of the shipped check-then-insert must violate C20_Single in TLC and the locked variant must satisfy it.",
+   text="Schedules of two and three threads evaluating the same new dimension/prefix/unit/logarithm/logarithmic unit are explored systematically on the real code (all 1-preemption and sampled/all 2-preemption schedules at line granularity, sampled 3-thread and random schedules); every run's history and final table must be accepted by TLC as a behaviour of InternAtomic for some choice of linearization points. The PlusCal model of the shipped check-then-insert must violate C20_Single in TLC and the locked variant must satisfy it. A named base-unit definition evaluated by several threads is one of the constructions (a refusal with ValueError is a legitimate no-op).",
    note="Line granularity inside the measured package; lru_cache wrappers are opaque steps; a thread not back within 20 ms is treated as blocked (any synchronisation scheme is accepted, only the histories are judged)."),
 
  "C16": dict(engine="lr", technique="TLA+ spec LR.tla: product of the two LALR tables (shipped vs built from the grammar) explored completely by TLC, LR interpreter run on every token string up to a bound, and TLC trace validation of the shipped parser ENGINE's recorded state stacks against the shipped table; plus differential parsing",
    category="model_checking", design_ref="§5 C16",
-   text="The reachable product of the two tables is finite, so TLC's exploration of it is a complete decision of table equality up to state renaming (rows, action kinds, rule signatures, start/end states, rule sets); terminals, ignore list, lexer type and tree options are compared as constants in the same model; every token string up to the bound is run through both tables; the shipped engine's feed_token is recorded (no source edit) and TLC checks each recorded run is a behaviour of the shipped table; trees of shipped vs fresh parser are compared on instantiations of all those strings and on generated text.",
+   text="The reachable product of the two tables is finite, so TLC's exploration of it is a complete decision of table equality up to state renaming (rows, action kinds, rule signatures, start/end states, rule sets); terminals, ignore list, lexer type and tree options are compared as constants in the same model; every token string up to the bound is run through both tables; the shipped engine's feed_token is recorded (no source edit) and TLC checks each recorded run is a behaviour of the shipped table; trees of shipped vs fresh parser are compared on instantiations of all those strings and on generated text. Terminals whose text differs are compared by behaviour (every one-character string below U+3100 and short strings over class representatives) before a lexer difference is reported.",
    note="Fresh parser built with lark 1.3.1 through lark.tools.standalone's build function with the Makefile's options; lexer compared as data, not by automaton equivalence."),
  "C17": dict(engine="lr", technique="TLA+ spec LR.tla run mode: TLC enumerates every token string up to a bound with its accept/reject verdict under the shipped table; each is instantiated and parsed by Unit.parse/Quantity.parse twice (outcome alphabet, determinism, registries untouched, magnitude kind), plus generated and arbitrary text",
    category="model_checking", design_ref="§5 C17",
-   text="Token level: exhaustive up to the bound for both start symbols, with the spec prescribing accept/reject; character level: whitespace variants, alphabet-restricted random text, arbitrary Unicode (generated, not exhausted). Only Unit/Quantity results or ParseError/KeyError are allowed; a second parse must agree; name/symbol registries must be unchanged; int tokens give int magnitudes and float tokens floats.",
+   text="Token level: exhaustive up to the bound for both start symbols, with the spec prescribing accept/reject; character level: whitespace variants, alphabet-restricted random text, arbitrary Unicode (generated, not exhausted). Only Unit/Quantity results or ParseError/KeyError are allowed; a second parse must agree; name/symbol registries must be unchanged; int tokens give int magnitudes and float tokens floats. Numbers far outside the machine ranges (20, 400, 5000 digits; huge exponents next to a binary prefix) are among the texts.",
    note="Model checking at token level; exploration strength for arbitrary text (stated in evidence)."),
 
  "C14": dict(engine="uncertainty", technique="TLA+ spec (Uncertainty.tla over Quantities.tla: exact rational variance by first-order propagation) with TLC enumerating operator x operand cases; each replayed on the real library comparing measurand and uncertainty^2",
    category="model_checking", design_ref="§5 C14",
-   text="For +, -, *, / (measurement or plain quantity on either side) and integer powers -4..4 over a grid of measurands (both signs, zero), uncertainties (zero included) and unit re-expressions, TLC computes the exact physical measurand and variance; the real library's result is mapped to SI with exact sizes and compared (1e-9 on the variance); exceptions where the formula is finite are violations; cases run in fresh forks and in shared processes in two orders.",
+   text="For +, -, *, / (measurement or plain quantity on either side) and integer powers -4..4 over a grid of measurands (both signs, zero), uncertainties (zero included) and unit re-expressions, TLC computes the exact physical measurand and variance; the real library's result is mapped to SI with exact sizes and compared (1e-9 on the variance); exceptions where the formula is finite are violations; cases run in fresh forks and in shared processes in two orders. The same cases are re-instantiated with Decimal and with mixed Decimal/float magnitudes.",
    note="Rational grid; the code's float square root is squared by alpha; independence of inputs is the property's own assumption."),
 
  "C19": dict(engine="names", technique="TLA+ spec Names.tla (validate-then-commit declarations, lookups as a function of the registries) model-checked with TLC; every transition replayed on the real library (spec->code) and declaration/lookup traces recorded while the shipped modules import under several orders validated by TLC (code->spec)",
    category="model_checking", design_ref="§5 C19",
-   text="All orders of anonymous construction, define/derive/alias/named construction and lookups over a small universe, including every failing call (taken name, taken symbol, symbol with a space, non-string symbol in every argument position), are enumerated by TLC; after each real call the lookup tables, the names/symbols objects report, uniqueness over time and atomicity of failures are compared. The declarations and probing lookups made during import of the shipped modules (one real subprocess per import order) are recorded from outside and checked by TLC against the same clauses.",
+   text="All orders of anonymous construction, define/derive/alias/named construction and lookups over a small universe, including every failing call (taken name, taken symbol, symbol with a space, non-string symbol in every argument position), are enumerated by TLC; after each real call the lookup tables, the names/symbols objects report, uniqueness over time and atomicity of failures are compared. The declarations and probing lookups made during import of the shipped modules (one real subprocess per import order) are recorded from outside and checked by TLC against the same clauses. The dimension registry (Dimension.define / derive / named) and snapshot histories (pickle an object, declare further names, load the pickle: nothing may be rewound) are modelled and replayed the same way.",
    note="Universe and depth in evidence; dimensions' names are not modelled (Dimension.derive has no failure mode); orphan intern entries are a separate clause."),
 
  "C18": dict(engine="levels", technique="TLA+ spec Levels.tla (the level as an exact rational k*(j/12)/value(prefix); monotonicity, round-trip and zero-at-reference theorems checked by TLC) with TLC enumerating family x reference x lattice point; each replayed on the real library through alpha (50-digit exponential map)",
    category="model_checking", design_ref="§5 C18",
-   text="TLC decides the definitional structure exactly (k by dimension class, direction of the logarithm's prefix, base, normalisation of the reference) and exports the exact level for every case; alpha builds the quantity reference*base**(j/12) with 50-digit decimals, in the reference's unit and in another convertible unit, and the code's level, quantify(), both round trips and level==quantity are compared at 1e-9; all references of a family also run in one process in both orders.",
+   text="TLC decides the definitional structure exactly (k by dimension class, direction of the logarithm's prefix, base, normalisation of the reference) and exports the exact level for every case; alpha builds the quantity reference*base**(j/12) with 50-digit decimals, in the reference's unit and in another convertible unit, and the code's level, quantify(), both round trips and level==quantity are compared at 1e-9; all references of a family also run in one process in both orders. Bases 10, e, 2 and the unregistered 3 and 16; float, Decimal and int magnitudes.",
    note="The transcendental step is alpha's (decimal module, independent of math.log); TLC's share is the linear part, as stated in DESIGN §9.1."),
 
  "C13": dict(engine="text", technique="TLA+ spec Text.tla (the documented symbol resolution order over the library's REAL symbol tables as code-point sequences): TLC enumerates every registered prefix x unit symbol and computes the collisions; the model is conformance-checked against Unit.resolve_symbol on every such string; str()/parse round trips, spellings and quantities replayed on the real library",
